@@ -9,16 +9,16 @@ def maxU64 : Nat := 18446744073709551615
 def maxI64 : Int := 9223372036854775807
 
 /-- The loop of `ByteToBase10`: `n` is the accumulator; `none` = `errBase10`. -/
-def loop : List UInt8 → Nat → Option Nat
+def b10loop : List UInt8 → Nat → Option Nat
   | [], n => some n
   | d :: ds, n =>
     if 48 ≤ d.toNat ∧ d.toNat ≤ 57 then
       if n > (maxU64 - (d.toNat - 48)) / 10 then none
-      else loop ds (n * 10 + (d.toNat - 48))
+      else b10loop ds (n * 10 + (d.toNat - 48))
     else none
 
 /-- `ByteToBase10`: `some n` (n < 2^64) or `none` (error). The empty string is 0. -/
-def byteToBase10 (b : List UInt8) : Option Nat := loop b 0
+def byteToBase10 (b : List UInt8) : Option Nat := b10loop b 0
 
 /-- `int64(x)` for a uint64 `x` (two's complement reinterpretation). -/
 def toInt64 (n : Nat) : Int :=
